@@ -90,7 +90,7 @@ func streamOracle(dir string, want []byte, have int, ops []OpObs, sinkStarted bo
 				}
 				return "early-eof:" + dir + ":" + k, fmt.Sprintf("%s op %d (%s): end of stream reported after %d of %d bytes", dir, i, k, pos, len(want))
 			}
-		case k == "writeto-sink" && o.Err == "sink-error":
+		case (k == "writeto-sink" || k == "tunnel-fail") && o.Err == "sink-error":
 			// the caller's own sink failed: what it took is a prefix (checked above); what the conn had already
 			// pulled off the stream for that Write is gone with the failed copy (as with io.Copy): no further claim
 			return "", ""
@@ -358,6 +358,10 @@ func genReads(r *common.Rng, total int) []ROp {
 		}
 		sk = append(sk, SinkIt{Accept: common.Pick(r, []int{0, 1, 17, 4096, 65534, 1 << 20}), Err: true})
 		ops = append(ops, ROp{Kind: "writeto-sink", Sink: sk}, ROp{Kind: "writeto"})
+	case 5:
+		// tunnel copy into a conn whose transport fails at its k-th write, after some bytes of it; the caller then goes on
+		ops = append(ops, ROp{Kind: "tunnel-fail", FailAt: r.Range(1, 4), FailKeep: common.Pick(r, []int{0, 1, 17, 18, 19, 4096}), ViaReadFrom: r.Bool()},
+			ROp{Kind: "read", N: common.Pick(r, []int{100, 70000})}, ROp{Kind: "writeto"})
 	case 4:
 		if r.Chance(1, 4) {
 			ops = append(ops, ROp{Kind: "writeto-badsink"})
@@ -434,7 +438,7 @@ func genCase(r *common.Rng) Case {
 	}
 	plain := func(ops []ROp) []ROp { // scripted sinks are not combined with read deadlines
 		for i := range ops {
-			if strings.HasPrefix(ops[i].Kind, "writeto-") {
+			if strings.HasPrefix(ops[i].Kind, "writeto-") || ops[i].Kind == "tunnel-fail" {
 				ops[i] = ROp{Kind: "writeto"}
 			}
 		}
